@@ -12,8 +12,8 @@ func scenElect(voters []uint64, nonvoters []uint64, maxTerm uint64, dev int, cra
 	n := len(voters) + len(nonvoters)
 	sc := &simScenario{
 		Name: "elect-" + joinU(voters),
-		Opt:  worldOpt{Nodes: n, Voters: voters, Nonvoters: nonvoters, EagerFSM: true, EagerLU: true, EagerConnect: true},
-		Menu: simMenu{Timeouts: true, MaxTerm: maxTerm, Disconnects: true, Drops: true, Dups: true, Crashes: crashes > 0},
+		Opt:  worldOpt{Nodes: n, Voters: voters, Nonvoters: nonvoters, EagerFSM: true, EagerLU: true, EagerConnect: true, Disconnects: true},
+		Menu: simMenu{Timeouts: true, MaxTerm: maxTerm, Drops: true, Dups: true, Crashes: crashes > 0},
 		MaxDev:  dev,
 		Crashes: crashes,
 	}
